@@ -947,6 +947,9 @@ func (lf *lexFacts) transfer(cx *lexCtx, s *lexState, in ssa.Instruction) {
 				s.debt, s.wdebt, s.wit, s.flagMay = false, false, nil, true
 			} else {
 				s.flagU, s.flagMust = s.cur, false
+				if isFalseConst(x.Val) && s.flagMay && cx.flagOver != nil {
+					cx.flagOver[x] = true // cleared although it may have been set in this gap
+				}
 				if !isFalseConst(x.Val) {
 					// a computed value: it settles a pending report when it is one of its witnesses (the flag is then true
 					// whenever the line break happened) — but it may also clear a flag that was already set
